@@ -149,6 +149,23 @@ impl Engine for C19 {
             // histories of the block encoder reached through the command line
             let mut rr = r.fork();
             crate::c02::gen_jobs(&mut rr, Tier::Quick, 0).swap_remove(0).content
+        } else if r.chance(1, 10) {
+            // consecutive blocks of one file over alphabets of the same size and shape but different members (the second
+            // block may contain byte values, also above the first block's maximum, that the first block's entropy table
+            // has no code for)
+            let n = *r.pick(&[8u16, 16, 16, 17, 32, 100]);
+            let lo = *r.pick(&[0u8, 1, b'a', 100, 200]);
+            let mut parts = vec![Content::Range { lo, n, len: *r.pick(&[131_072usize, 131_072, 262_144, 100_000]), seed: r.next_u64() }];
+            for _ in 0..r.urange(1, 2) {
+                let (lo2, n2) = match r.below(4) {
+                    0 => (lo.wrapping_add(1), n),
+                    1 => (lo.wrapping_sub(1), n),
+                    2 => (lo, n + 1),
+                    _ => (lo.wrapping_add(r.below(4) as u8), n),
+                };
+                parts.push(Content::Range { lo: lo2, n: n2, len: *r.pick(&[2_000usize, 8_192, 40_000, 131_072]), seed: r.next_u64() });
+            }
+            Content::Concat(parts)
         } else if r.chance(1, 12) {
             // large periodic files: many full 128 KiB blocks with long matches, read back by the tool in 8 KiB pieces
             Content::Periodic { period: *r.pick(&[333usize, 1000, 4096, 70001]), len: *r.pick(&[700_000usize, 1_000_000, 1_048_576]), seed: r.next_u64() }
